@@ -1,9 +1,11 @@
+import Driver.C01
 import Driver.C06
 import Driver.C13
 
 namespace Driver
 def dispatch (p : String) (rest : List String) : String :=
   match p with
+  | "C01" => C01.handle rest
   | "C06" => C06.handle rest
   | "C13" => C13.handle rest
   | _ => "bad unknown-property " ++ p
